@@ -203,17 +203,22 @@ def varPlan (p : LPlan) (g : GdefIn) : VarPlan :=
     { vmap := remapVarIdx st.subs.length set, inner := innerMaps st.subs.length set }
   | _ => { vmap := [], inner := [] }
 
+/-- `coverage.intersects(&plan.glyphset_gsub)` (on a well-formed coverage) -/
+def setUsed (p : LPlan) : Option Coverage → Bool
+  | none => false
+  | some c => c.glyphs.any (fun x => p.glyphset.contains x)
+
+/-- the loop of `MarkGlyphSets::collect_used_mark_sets` (an unreadable coverage ends it) -/
+def usedGo (p : LPlan) : List (Option Coverage) → Nat → List Nat
+  | [], _ => []
+  | none :: _, _ => []
+  | some c :: rest, i => (if setUsed p (some c) then [i] else []) ++ usedGo p rest (i + 1)
+
 /-- `CollectUsedMarkSets` + `remap_indices`: `plan.used_mark_sets_map` (old, new).  The GDEF
 subsetter does not read it (it drops the sets whose coverage subsets to empty). -/
 def usedMarkSets (p : LPlan) (g : GdefIn) : List Nat :=
   match g.markGlyphSets with
-  | .ok m =>
-    let rec go : List (Option Coverage) → Nat → List Nat
-      | [], _ => []
-      | none :: _, _ => []
-      | some c :: rest, i =>
-        (if c.glyphs.any (fun x => p.glyphset.contains x) then [i] else []) ++ go rest (i + 1)
-    go m.sets 0
+  | .ok m => usedGo p m.sets 0
   | _ => []
 
 def usedMarkSetsMap (p : LPlan) (g : GdefIn) : List (Nat × Nat) :=
